@@ -155,8 +155,8 @@ func init() {
 			rule: "(1) explicit-state BFS over server streams {Tx, TxUpdate with the next / repeated / skipped / old / far id, Headers, InSync}, connection drops and reconnects (application declares Ready(NextMessageID()) from its handler), also with a server that replays its log from the declared id and with a first Ready at a persisted id (57): delivered ids consecutive from the declared id, NextMessageID = last + 1, both handlers identical, server order preserved, nothing missed with a replaying server. (2) schedule exploration: at every scheduling point of a baseline with an immediately replaying server one stall / pre-emption"})
 	}
 	All["C18"] = func() int {
-		return runCCheck(cCheck{prop: "C18", scenarios: c18Scenarios(), depthQ: 4, depthT: 6,
-			rule: "explicit-state BFS, both connection types, manual server: accept message variants {valid, unrelated key, key derived from another hash, signed by another key, signed by the root key, signature over altered message/utxo/push-data counts, signature over another session hash, replay of the previous session's accept}, application calls (a request, a subscription, Ready) before/after accept and while disconnected, notifications, drops, reconnects: register verifies under the client key, only handshake types before the handshake completes, a forged accept ends Run with an error / IsAccepted false / no handler data, a call never returns success without its bytes having reached the server"})
+		return runCCheck(cCheck{prop: "C18", scenarios: c18Scenarios(), depthQ: 4, depthT: 6, sched: c18Sched,
+			rule: "(with a schedule exploration part: baselines that queue a request before an honest / forged accept on both connection types; one stall or pre-emption at every scheduling point) explicit-state BFS, both connection types, manual server: accept message variants {valid, unrelated key, key derived from another hash, signed by another key, signed by the root key, signature over altered message/utxo/push-data counts, signature over another session hash, replay of the previous session's accept}, application calls (a request, a subscription, Ready) before/after accept and while disconnected, notifications, drops, reconnects: register verifies under the client key, only handshake types before the handshake completes, a forged accept ends Run with an error / IsAccepted false / no handler data, a call never returns success without its bytes having reached the server"})
 	}
 	Replayers["C16"] = cReplay("C16")
 	Replayers["C17"] = cReplay("C17")
